@@ -283,6 +283,45 @@ def run_case(case):
                 vm.advance(dt or 0.001)
                 chk.drain()       # quiescence: the loop is idle, so everything posted so far has been dispatched
             vm.advance(1.0)
+            # ---- the same argument-override rule on the queue-event dispatcher (its handlers run in a task, so only
+            # the merged kwargs are judged here; ordering of queue events belongs to C02)
+            import random as _random
+            rq = _random.Random(repr(case["roots"])[:200])
+            qcalls = []
+
+            def mkq(i, hkw):
+                def qh(queue, **kwargs):
+                    qcalls.append((i, dict(kwargs)))
+                return qh
+            qkeys = []
+            qregs = []
+            for i in range(rq.choice([2, 3])):
+                hkw = {k: v for k, v in (("x", rq.choice([7, 8])), ("tag", "h%d" % i), ("y", 9)) if rq.random() < 0.7}
+                hkw["_rid"] = "q%d" % i
+                qregs.append(hkw)
+                qkeys.append(ev.add_handler("c01_queue_ev", mkq(i, hkw), priority=10 - i, **hkw))
+            qdone = []
+            for ctx in ("direct", "delay"):
+                pkw = {"x": rq.choice([0, 1]), "y": rq.choice([2, 3]), "tag": "p", "z": ctx}
+                del qcalls[:]
+                if ctx == "direct":
+                    ev.post_queue("c01_queue_ev", lambda **kwargs: qdone.append(1), **pkw)
+                else:
+                    m.delay.add(ms=10, callback=lambda: ev.post_queue("c01_queue_ev", lambda **kwargs: qdone.append(1), **pkw))
+                vm.advance(0.05)
+                for i, got in qcalls:
+                    exp = dict(pkw)
+                    exp.update(qregs[i])
+                    chk.clauses["kwargs_merge"] += 1
+                    if got != exp:
+                        chk.V("kwargs_merge", "handler_kwargs_not_posted_overridden_by_registered", event="c01_queue_ev",
+                              dispatcher="queue", got=got, expected=exp)
+                chk.clauses["delivered_once"] += 1
+                if sorted(i for i, _ in qcalls) != list(range(len(qregs))):
+                    chk.V("delivered_once", "handler_not_called", event="c01_queue_ev", dispatcher="queue",
+                          called=[i for i, _ in qcalls])
+            for k in qkeys:
+                ev.remove_handler_by_key(k)
         except MpfCrash as e:
             st["crash"] = repr(e)
             chk.V("serial", "crash_during_dispatch", exc=st["crash"][:600])
